@@ -19,6 +19,7 @@ import (
 	"math/rand"
 	"os"
 	"runtime"
+	"sort"
 	"strconv"
 	"sync"
 	"sync/atomic"
@@ -35,7 +36,13 @@ type ev = map[string]interface{}
 
 var errPlanned = errors.New("planned callback error")
 
+// model keys k1..k3; the real keys differ in their first characters, because util's stringdjb2
+// ignores the last character of a key (keys "k1","k2","k3" would all live in one shard)
 var keys = []string{"k1", "k2", "k3"}
+var realKey = map[string]string{"k1": "alpha-key", "k2": "bravo-key", "k3": "charlie-key"}
+var modelKey = map[string]string{"alpha-key": "k1", "bravo-key": "k2", "charlie-key": "k3"}
+
+func rk(k string) string { return realKey[k] }
 
 const maxVal = 9
 
@@ -86,17 +93,17 @@ func (o *mapObj) do(c *call) {
 	}
 	switch c.op {
 	case "Exists":
-		c.r = []int{b(o.m.Exists(c.k))}
+		c.r = []int{b(o.m.Exists(rk(c.k)))}
 	case "Value":
-		v, found := o.m.Value(c.k)
+		v, found := o.m.Value(rk(c.k))
 		c.r = []int{b(found), v}
 	case "SetValue":
-		c.r = []int{b(o.m.SetValue(c.k, c.v))}
+		c.r = []int{b(o.m.SetValue(rk(c.k), c.v))}
 	case "RemoveValue":
-		c.r = []int{b(o.m.RemoveValue(c.k))}
+		c.r = []int{b(o.m.RemoveValue(rk(c.k)))}
 	case "Get":
 		sf, sv := -1, -1
-		err := o.m.Get(c.k, func(v int, found bool) error {
+		err := o.m.Get(rk(c.k), func(v int, found bool) error {
 			sf, sv = b(found), v
 			hook()
 			return nil
@@ -111,11 +118,12 @@ func (o *mapObj) do(c *call) {
 		}
 	case "GetOrCreate":
 		called, cr, sv := false, -1, -1
-		err := o.m.GetOrCreate(c.k, func(v int, created bool) error {
+		err := o.m.GetOrCreate(rk(c.k), func(v int, created bool) error {
 			called, cr, sv = true, b(created), v
 			hook()
 			return nil
 		}, func() (int, error) {
+			hook() // between the check and the store, under the lock
 			switch c.md {
 			case "val":
 				return c.v, nil
@@ -139,7 +147,7 @@ func (o *mapObj) do(c *call) {
 		}
 	case "Set":
 		sf, sv := -1, -1
-		v, created, err := o.m.Set(c.k, func(old int, found bool) (int, error) {
+		v, created, err := o.m.Set(rk(c.k), func(old int, found bool) (int, error) {
 			sf, sv = b(found), old
 			hook()
 			switch c.md {
@@ -167,7 +175,7 @@ func (o *mapObj) do(c *call) {
 		}
 	case "Remove":
 		sf, sv := -1, -1
-		removed, err := o.m.Remove(c.k, func(v int, found bool) error {
+		removed, err := o.m.Remove(rk(c.k), func(v int, found bool) error {
 			sf, sv = b(found), v
 			hook()
 			switch c.md {
@@ -193,7 +201,7 @@ func (o *mapObj) do(c *call) {
 		}
 	case "SetOrRemove":
 		sf, sv := -1, -1
-		v, created, removed, err := o.m.SetOrRemove(c.k, func(old int, found bool) (int, bool, error) {
+		v, created, removed, err := o.m.SetOrRemove(rk(c.k), func(old int, found bool) (int, bool, error) {
 			sf, sv = b(found), old
 			hook()
 			switch c.md {
@@ -224,7 +232,8 @@ func (o *mapObj) do(c *call) {
 	case "Traverse":
 		r := make([]int, len(keys))
 		dup := false
-		o.m.Traverse(func(k string, v int) bool {
+		o.m.Traverse(func(real string, v int) bool {
+			k := modelKey[real]
 			for i := range keys {
 				if keys[i] == k {
 					if r[i] != 0 {
@@ -259,7 +268,7 @@ func (o *mapObj) final() (int, []int) {
 	mm := o.m.Map()
 	kv := make([]int, len(keys))
 	for i := range keys {
-		kv[i] = mm[keys[i]]
+		kv[i] = mm[rk(keys[i])]
 	}
 	return o.m.Len(), kv
 }
@@ -308,6 +317,7 @@ func (o *lockedObj) do(c *call) {
 			hook()
 			return nil
 		}, func() (int, error) {
+			hook() // between the check and the store, under the lock
 			switch c.md {
 			case "val":
 				return c.v, nil
@@ -388,12 +398,12 @@ func (o *lockedObj) final() (int, []int) {
 	if !isempty {
 		kv[0] = v
 	}
-	return -1, kv
+	return -1000, kv // no length
 }
 
 // ---- objects ----
 
-var kinds = []string{"single", "sharded2", "sharded4", "sharded64", "deep2x2", "deep4x4", "locked", "sharded2", "sharded4"}
+var kinds = []string{"single", "sharded2", "sharded4", "sharded64", "deep2x2", "deep4x4", "locked", "sharded2", "sharded4", "locked"}
 
 func newObject(kind string) (object, error) {
 	var m util.LockedMap[string, int]
@@ -424,44 +434,66 @@ func newObject(kind string) (object, error) {
 
 // ---- one history ----
 
+// the log of one history: every goroutine stamps its Call / Ret events with one atomic logical
+// clock (Call: before the real call starts, Ret: after it returned) and keeps them privately; the
+// stamps give the global order afterwards (a mutex around the log would serialise the calls)
+type stamp struct {
+	seq int64
+	ret bool
+	c   *call
+}
+
 type hist struct {
-	mu   sync.Mutex
-	evs  []ev
-	byID map[int]*call
+	clock int64
+	mu    sync.Mutex
+	all   [][]stamp
 }
 
-func (hs *hist) call(c *call) {
-	hs.mu.Lock()
-	hs.evs = append(hs.evs, ev{"a": "Call", "c": c.id})
-	hs.byID[c.id] = c
-	hs.mu.Unlock()
+type lane struct {
+	hs  *hist
+	evs []stamp
 }
 
-func (hs *hist) ret(c *call) {
-	hs.mu.Lock()
-	hs.evs = append(hs.evs, ev{"a": "Ret", "c": c.id})
-	hs.mu.Unlock()
-}
+func (hs *hist) lane() *lane { return &lane{hs: hs} }
 
-func (hs *hist) perform(o object, c *call) {
-	hs.call(c)
+func (ln *lane) perform(o object, c *call) {
+	ln.evs = append(ln.evs, stamp{atomic.AddInt64(&ln.hs.clock, 1), false, c})
 	o.do(c)
-	hs.ret(c)
+	ln.evs = append(ln.evs, stamp{atomic.AddInt64(&ln.hs.clock, 1), true, c})
+}
+
+func (ln *lane) close() {
+	ln.hs.mu.Lock()
+	ln.hs.all = append(ln.hs.all, ln.evs)
+	ln.hs.mu.Unlock()
+}
+
+// perform on a fresh lane (sequential parts of forced histories)
+func (hs *hist) perform(o object, c *call) {
+	ln := hs.lane()
+	ln.perform(o, c)
+	ln.close()
 }
 
 func (hs *hist) flush(out *h.Out, reset ev, o object) {
+	var evs []stamp
+	for _, l := range hs.all {
+		evs = append(evs, l...)
+	}
+	reset["n"] = len(evs) + 1 // events of this history after the Reset (calls, returns, Final)
 	out.Emit(reset)
-	for _, e := range hs.evs {
-		if e["a"] == "Call" {
-			c := hs.byID[e["c"].(int)]
-			r := c.r
-			if r == nil {
-				r = []int{}
-			}
-			out.Emit(ev{"a": "Call", "c": c.id, "op": c.op, "k": c.k, "md": c.md, "v": c.v, "r": r})
-		} else {
-			out.Emit(e)
+	sort.Slice(evs, func(i, j int) bool { return evs[i].seq < evs[j].seq })
+	for _, e := range evs {
+		c := e.c
+		if e.ret {
+			out.Emit(ev{"a": "Ret", "c": c.id})
+			continue
 		}
+		r := c.r
+		if r == nil {
+			r = []int{}
+		}
+		out.Emit(ev{"a": "Call", "c": c.id, "op": c.op, "k": c.k, "md": c.md, "v": c.v, "r": r})
 	}
 	n, kv := o.final()
 	out.Emit(ev{"a": "Final", "len": n, "kv": kv})
@@ -513,7 +545,7 @@ func randomHistory(rng *rand.Rand, out *h.Out, idx int, kind string) error {
 	if err != nil {
 		return err
 	}
-	hs := &hist{byID: map[int]*call{}}
+	hs := &hist{}
 	ng := 2 + rng.Intn(3)
 	id := 0
 	plans := make([][]*call, ng)
@@ -524,11 +556,16 @@ func randomHistory(rng *rand.Rand, out *h.Out, idx int, kind string) error {
 		for i := 0; i < n; i++ {
 			id++
 			c := randomCall(rng, o, id, closing)
-			if rng.Intn(3) == 0 {
-				w := rng.Intn(400)
-				c.hook = func() { // widen the window inside the lock
-					if w%2 == 0 {
-						runtime.Gosched()
+			if rng.Intn(2) == 0 {
+				w := rng.Intn(3000)
+				c.hook = func() {
+					// inside the callback, i.e. under the object's lock: stay until some other
+					// goroutine has started or ended a call (the logical clock moved), bounded
+					t0 := atomic.LoadInt64(&hs.clock)
+					for n := 0; n < 40000 && atomic.LoadInt64(&hs.clock) == t0; n++ {
+						if n%256 == 255 {
+							runtime.Gosched()
+						}
 					}
 					spin(w)
 				}
@@ -537,23 +574,34 @@ func randomHistory(rng *rand.Rand, out *h.Out, idx int, kind string) error {
 			pauses[g] = append(pauses[g], rng.Intn(300))
 		}
 	}
+	// round i: every goroutine that has an i-th call spins on a counter until all of them have
+	// arrived, then they call at once (a channel wake-up would serialise them: a call takes ~100 ns)
 	var wg sync.WaitGroup
-	start := make(chan struct{})
+	need := make([]int64, 6)
+	for g := 0; g < ng; g++ {
+		for i := range plans[g] {
+			need[i]++
+		}
+	}
+	arrived := make([]int64, 6)
 	for g := 0; g < ng; g++ {
 		wg.Add(1)
 		go func(g int) {
 			defer wg.Done()
-			<-start
+			ln := hs.lane()
+			defer ln.close()
 			for i, c := range plans[g] {
-				hs.perform(o, c)
-				if pauses[g][i]%3 == 0 {
-					runtime.Gosched()
+				atomic.AddInt64(&arrived[i], 1)
+				for n := 0; atomic.LoadInt64(&arrived[i]) < need[i]; n++ {
+					if n%64 == 63 {
+						runtime.Gosched()
+					}
 				}
-				spin(pauses[g][i])
+				spin(pauses[g][i] % 40)
+				ln.perform(o, c)
 			}
 		}(g)
 	}
-	close(start)
 	wg.Wait()
 	hs.flush(out, ev{"a": "Reset", "i": idx, "kind": kind, "g": ng}, o)
 	return nil
@@ -585,16 +633,16 @@ func forcedTraverse(out *h.Out, idx int, kind string) (bool, error) {
 	}
 	// visiting order of the three keys on this object (its hash seed is random)
 	for i, k := range keys {
-		mo.m.SetValue(k, i+1)
+		mo.m.SetValue(rk(k), i+1)
 	}
 	var order []string
-	mo.m.Traverse(func(k string, _ int) bool { order = append(order, k); return true })
+	mo.m.Traverse(func(k string, _ int) bool { order = append(order, modelKey[k]); return true })
 	if len(order) != 3 {
 		return false, nil
 	}
 	mo.m.Empty()
 	p, r, q := order[0], order[1], order[2]
-	hs := &hist{byID: map[int]*call{}}
+	hs := &hist{}
 	hs.perform(o, &call{id: 1, op: "SetValue", k: r, md: "-", v: 5})
 	atR, goOn := make(chan struct{}), make(chan struct{})
 	var once sync.Once
@@ -645,7 +693,7 @@ func forcedLen(out *h.Out, idx int, kind string, remove bool) (bool, error) {
 	if _, sharded := mo.m.(*util.ShardedMap[string, int]); !sharded {
 		return false, nil
 	}
-	hs := &hist{byID: map[int]*call{}}
+	hs := &hist{}
 	if remove {
 		hs.perform(o, &call{id: 1, op: "SetValue", k: "k1", md: "-", v: 4})
 	}
@@ -725,5 +773,6 @@ func run(args []string) error {
 		}
 		idx++
 	}
+	out.Emit(ev{"a": "End"})
 	return nil
 }
